@@ -60,3 +60,19 @@ func VerifWaitPrune() { wg.Wait() }
 // schedule around; the harness raises the flag itself and lets the scheduler run
 // the pruner to its exit before calling Close).
 func VerifSetQuit(q bool) { quit = q }
+
+// VerifPresetMemTree creates the two process-global mem-tree caches exactly as
+// InitGlobalMem does, except that the node map gets no capacity hint. (The
+// constructor's hint of 500000 entries costs 50-100 ms of allocation and clearing
+// per process start, which dominated the simulation; a Go map grows on demand, so
+// the behaviour is the same.) InitGlobalMem then finds the caches in place.
+func VerifPresetMemTree(tkLen int32) {
+	if memTree != nil {
+		return
+	}
+	memTree = NewTreeMap(0)
+	if tkLen == 0 {
+		tkLen = tkCloseCacheLen
+	}
+	tkCloseCache = NewTreeARC(int(tkLen))
+}
